@@ -1,0 +1,259 @@
+//! Verification hooks. Compiled only with `--cfg hashbrown_verif`; nothing here is
+//! reachable from the normal build. They expose read/write access to the private
+//! representation (so that an external checker can construct an arbitrary table
+//! state and inspect it afterwards), thin wrappers around private pure functions,
+//! and the "unwinding" flag used to emulate a panicking callback in tools that
+//! cannot unwind.
+#![allow(missing_docs, clippy::missing_safety_doc, clippy::must_use_candidate)]
+
+use super::*;
+
+pub use super::{Bucket, RawIter, RawTable};
+
+pub const GROUP_WIDTH: usize = Group::WIDTH;
+pub const TAG_EMPTY: u8 = byte_of(Tag::EMPTY);
+pub const TAG_DELETED: u8 = byte_of(Tag::DELETED);
+
+#[inline]
+const fn byte_of(t: Tag) -> u8 {
+    // SAFETY: Tag is repr(transparent) over u8.
+    unsafe { core::mem::transmute::<Tag, u8>(t) }
+}
+
+// ---------------------------------------------------------------- accessors
+
+pub fn raw_of_table<T, A: Allocator>(t: &mut crate::HashTable<T, A>) -> &mut RawTable<T, A> {
+    &mut t.raw
+}
+pub fn raw_of_table_ref<T, A: Allocator>(t: &crate::HashTable<T, A>) -> &RawTable<T, A> {
+    &t.raw
+}
+pub fn raw_of_map<K, V, S, A: Allocator>(
+    m: &mut crate::HashMap<K, V, S, A>,
+) -> &mut RawTable<(K, V), A> {
+    &mut m.table
+}
+pub fn raw_of_map_ref<K, V, S, A: Allocator>(
+    m: &crate::HashMap<K, V, S, A>,
+) -> &RawTable<(K, V), A> {
+    &m.table
+}
+pub fn raw_of_set<T, S, A: Allocator>(
+    s: &mut crate::HashSet<T, S, A>,
+) -> &mut RawTable<(T, ()), A> {
+    &mut s.map.table
+}
+pub fn raw_of_set_ref<T, S, A: Allocator>(s: &crate::HashSet<T, S, A>) -> &RawTable<(T, ()), A> {
+    &s.map.table
+}
+
+impl<T, A: Allocator> RawTable<T, A> {
+    pub fn v_bucket_mask(&self) -> usize {
+        self.table.bucket_mask
+    }
+    pub fn v_items(&self) -> usize {
+        self.table.items
+    }
+    pub fn v_growth_left(&self) -> usize {
+        self.table.growth_left
+    }
+    pub fn v_ctrl_ptr(&self) -> *mut u8 {
+        self.table.ctrl.as_ptr()
+    }
+    pub fn v_is_empty_singleton(&self) -> bool {
+        self.table.is_empty_singleton()
+    }
+    pub unsafe fn v_set_counts(&mut self, items: usize, growth_left: usize) {
+        self.table.items = items;
+        self.table.growth_left = growth_left;
+    }
+    pub unsafe fn v_elem_ptr(&self, index: usize) -> *mut T {
+        self.bucket(index).as_ptr()
+    }
+    /// `(block start, layout size, layout align)` of the current allocation, `None` for the
+    /// unallocated singleton.
+    pub fn v_allocation(&self) -> Option<(*mut u8, usize, usize)> {
+        if self.table.is_empty_singleton() {
+            None
+        } else {
+            let (p, l) = unsafe { self.table.allocation_info(Self::TABLE_LAYOUT) };
+            Some((p.as_ptr(), l.size(), l.align()))
+        }
+    }
+    /// Direct entry to the in-place rehash (normally reached through `reserve`).
+    pub unsafe fn v_rehash_in_place(&mut self, hasher: impl Fn(&T) -> u64) {
+        self.table.rehash_in_place(
+            &|table, index| hasher(table.bucket::<T>(index).as_ref()),
+            Self::TABLE_LAYOUT.size,
+            if T::NEEDS_DROP {
+                Some(|ptr| ptr::drop_in_place(ptr as *mut T))
+            } else {
+                None
+            },
+        );
+    }
+    /// Direct entry to the resize path (normally reached through `reserve`/`shrink_to`).
+    pub unsafe fn v_resize(
+        &mut self,
+        capacity: usize,
+        hasher: impl Fn(&T) -> u64,
+    ) -> Result<(), crate::TryReserveError> {
+        self.resize(capacity, hasher, Fallibility::Fallible)
+    }
+    pub unsafe fn v_erase_index(&mut self, index: usize) {
+        self.table.erase(index);
+    }
+    pub unsafe fn v_find_insert_slot(&self, hash: u64) -> usize {
+        self.table.find_insert_slot(hash).index
+    }
+}
+
+// ------------------------------------------------------------ pure wrappers
+
+pub fn v_capacity_to_buckets(cap: usize, size: usize, ctrl_align: usize) -> Option<usize> {
+    capacity_to_buckets(cap, TableLayout { size, ctrl_align })
+}
+pub fn v_bucket_mask_to_capacity(mask: usize) -> usize {
+    bucket_mask_to_capacity(mask)
+}
+pub fn v_calculate_layout_for(
+    size: usize,
+    ctrl_align: usize,
+    buckets: usize,
+) -> Option<(usize, usize, usize)> {
+    TableLayout { size, ctrl_align }
+        .calculate_layout_for(buckets)
+        .map(|(l, off)| (l.size(), l.align(), off))
+}
+pub fn v_table_layout<T>() -> (usize, usize) {
+    let l = TableLayout::new::<T>();
+    (l.size, l.ctrl_align)
+}
+pub fn v_probe_start(hash: u64, mask: usize) -> usize {
+    h1(hash) & mask
+}
+pub fn v_probe_next(pos: usize, stride: usize, mask: usize) -> (usize, usize) {
+    let mut p = ProbeSeq { pos, stride };
+    p.move_next(mask);
+    (p.pos, p.stride)
+}
+pub fn v_tag_full(hash: u64) -> u8 {
+    byte_of(Tag::full(hash))
+}
+
+// ---------------------------------------------------------- group primitives
+// Input: GROUP_WIDTH bytes. Output: plain bitset (bit i = lane i).
+
+#[inline]
+fn tag_of(b: u8) -> Tag {
+    // SAFETY: Tag is repr(transparent) over u8.
+    unsafe { core::mem::transmute::<u8, Tag>(b) }
+}
+#[inline]
+fn load(bytes: &[u8; GROUP_WIDTH]) -> Group {
+    unsafe { Group::load(bytes.as_ptr().cast()) }
+}
+#[inline]
+fn bits<I: IntoIterator<Item = usize>>(m: I) -> u32 {
+    let mut r = 0u32;
+    for i in m {
+        r |= 1 << i;
+    }
+    r
+}
+
+pub fn v_group_match_tag(bytes: &[u8; GROUP_WIDTH], tag: u8) -> u32 {
+    bits(load(bytes).match_tag(tag_of(tag)))
+}
+/// (bitset, any_bit_set, leading_zeros, trailing_zeros)
+pub fn v_group_match_empty(bytes: &[u8; GROUP_WIDTH]) -> (u32, bool, usize, usize) {
+    let m = load(bytes).match_empty();
+    (
+        bits(m),
+        m.any_bit_set(),
+        m.leading_zeros(),
+        m.trailing_zeros(),
+    )
+}
+/// (bitset, lowest_set_bit)
+pub fn v_group_match_empty_or_deleted(bytes: &[u8; GROUP_WIDTH]) -> (u32, Option<usize>) {
+    let m = load(bytes).match_empty_or_deleted();
+    (bits(m), m.lowest_set_bit())
+}
+pub fn v_group_match_full(bytes: &[u8; GROUP_WIDTH]) -> u32 {
+    bits(load(bytes).match_full())
+}
+/// Order in which the BitMask iterator of `match_full` yields lanes, packed 5 bits per step,
+/// together with the number of steps.
+pub fn v_group_match_full_order(bytes: &[u8; GROUP_WIDTH]) -> (u128, usize) {
+    let mut r = 0u128;
+    let mut n = 0usize;
+    for i in load(bytes).match_full() {
+        r |= (i as u128) << (5 * n);
+        n += 1;
+    }
+    (r, n)
+}
+pub fn v_group_convert(bytes: &[u8; GROUP_WIDTH]) -> [u8; GROUP_WIDTH] {
+    #[repr(align(16))]
+    struct Al([u8; GROUP_WIDTH]);
+    let a = Al(*bytes);
+    let mut o = Al([0; GROUP_WIDTH]);
+    unsafe {
+        let g = Group::load_aligned(a.0.as_ptr().cast());
+        g.convert_special_to_empty_and_full_to_deleted()
+            .store_aligned(o.0.as_mut_ptr().cast());
+    }
+    o.0
+}
+pub fn v_static_empty() -> [u8; GROUP_WIDTH] {
+    let s = Group::static_empty();
+    let mut o = [0u8; GROUP_WIDTH];
+    let mut i = 0;
+    while i < GROUP_WIDTH {
+        o[i] = byte_of(s[i]);
+        i += 1;
+    }
+    o
+}
+
+// --------------------------------------------------- emulated unwinding flag
+// A callback that "panics" sets the flag and returns a dummy value; the
+// `#[cfg(hashbrown_verif)] if verif_hooks::unwinding() { return ..; }` points placed directly
+// after the callback call sites then leave the frame the way an unwind would (dropping the
+// locals, i.e. running the scope guards). Never set in native builds.
+
+static mut UNWINDING: bool = false;
+#[inline]
+pub fn unwinding() -> bool {
+    unsafe { UNWINDING }
+}
+#[inline]
+pub fn set_unwinding(b: bool) {
+    unsafe {
+        UNWINDING = b;
+    }
+}
+
+// ------------------------------------------------------- RawIterRange (rayon)
+
+#[cfg(feature = "rayon")]
+pub struct VRange<T>(pub(crate) RawIterRange<T>);
+
+#[cfg(feature = "rayon")]
+impl<T> VRange<T> {
+    pub fn of_table<A: Allocator>(t: &RawTable<T, A>) -> Self {
+        VRange(unsafe { t.iter().iter })
+    }
+    pub fn split(self) -> (Self, Option<Self>) {
+        let (a, b) = self.0.split();
+        (VRange(a), b.map(VRange))
+    }
+    /// Next bucket of this range as an index into `t` (bounds-checked walk).
+    pub fn next_index<A: Allocator>(&mut self, t: &RawTable<T, A>) -> Option<usize> {
+        self.0.next().map(|b| unsafe { t.bucket_index(&b) })
+    }
+    pub fn size_hint_upper(&self) -> Option<usize> {
+        self.0.size_hint().1
+    }
+}
